@@ -1,5 +1,6 @@
 import LeptosModel.Model.Reactive
 import LeptosModel.Model.ReactiveOld
+import LeptosModel.Proofs.ReactiveConv
 /-!
 # C02 — effects converge to the current state under every task schedule
 -/
@@ -18,11 +19,12 @@ def progNoUntracked (p : Prog) : Bool :=
   p.all fun d => match d with | .sig _ => true | .memo b => b.noUntracked | .eff b => b.noUntracked
 
 /-- **full statement**: at every idle point (no task woken) of every history (writes, reads,
-polls in any order) of every well-formed program, every effect is current.  OPEN (it was FALSE of the code
-before the repair 4084efd, see `C02_lost_update_witness`; after the repair no counterexample is known:
-0 in 63 000 generated programs x histories x schedules).  NOTE: histories with `pause` are excluded by the
-property itself (changes made during a pause are not replayed); `allEffectsCurrent` must then be restricted to
-effects that were not paused - the precise statement to prove is `C02_effects_converge_stmt` below. -/
+polls in any order) of every well-formed program, every effect is current.  FALSE: of the code before the
+repair 4084efd by `C02_lost_update_witness` (F-C02-1), and of the repaired code by the self-feedback witness
+F-C02-2 (`C02_effects_converge_full_false` / `C02_effects_converge_stmt_false` below).  What IS proved about
+the repaired code: `C02_effects_converge_readonly` (every effect whose own body does not write is current).
+NOTE: histories with `pause` are excluded by the property itself (changes made during a pause are not
+replayed) - see `C02_effects_converge_stmt`. -/
 def C02_effects_converge_full : Prop :=
   ∀ (p : Prog) (ops : List Op), WF p = true → progNoUntracked p = true →
     ready (run p ops) = [] → allEffectsCurrent p (run p ops) = true
@@ -60,9 +62,143 @@ theorem C02_effects_converge_full_old_false : ¬ C02_effects_converge_full_old :
 def opsNoLifecycle (ops : List Op) : Bool :=
   ops.all fun o => match o with | .pause _ => false | .resume _ => false | .dispose _ => false | _ => true
 
-/-- the statement to prove about the repaired code: histories of writes, reads and polls (no pause/dispose) -/
+/-- the statement about the repaired code for histories of writes, reads and polls (no pause/dispose);
+FALSE as it stands (`C02_effects_converge_stmt_false`, F-C02-2); proved for the effects that do not write:
+`C02_effects_converge_readonly`. -/
 def C02_effects_converge_stmt : Prop :=
   ∀ (p : Prog) (ops : List Op), WF p = true → progNoUntracked p = true → opsNoLifecycle ops = true →
     ready (run p ops) = [] → allEffectsCurrent p (run p ops) = true
+
+/-! ## F-C02-2 and the theorem for effects that do not write -/
+
+/-- F-C02-2 (self-feedback-stale): `m = s + s`, an effect that reads `m`, writes `s := m`, reads `m` again.
+The write makes `m` stale, the second read recomputes `m` and notifies every subscriber of `m`
+EXCEPT the current observer — the running effect itself; the effect is only `mark_check`-ed, its
+next source walk finds `m` unchanged, and it is never re-run: it keeps the stale first read. -/
+def c02SelfProg : Prog :=
+  [.sig 0, .memo (.add (.rd true 0) (.rd true 0)), .eff (.seq (.wr 0 (.rd true 1)) (.rd true 1))]
+
+def c02SelfOps : List Op := [.set 0 1, .idle]
+
+theorem C02_self_feedback_witness :
+    WF c02SelfProg = true ∧ progNoUntracked c02SelfProg = true ∧ opsNoLifecycle c02SelfOps = true ∧
+    ready (run c02SelfProg c02SelfOps) = [] ∧
+    ((run c02SelfProg c02SelfOps).get 2).seen.map (fun t => (t.1, t.2.1)) = [(1, 2), (1, 4)] ∧
+    specVal c02SelfProg (run c02SelfProg c02SelfOps) 1 = 4 ∧
+    allEffectsCurrent c02SelfProg (run c02SelfProg c02SelfOps) = false := by decide +kernel
+
+/-- `C02_effects_converge_stmt` is FALSE as stated (known finding F-C02-2) -/
+theorem C02_effects_converge_stmt_false : ¬ C02_effects_converge_stmt := by
+  intro h
+  have w := C02_self_feedback_witness
+  have := h c02SelfProg c02SelfOps w.1 w.2.1 w.2.2.1 w.2.2.2.1
+  rw [this] at w
+  exact absurd w.2.2.2.2.2.2 (by decide)
+
+theorem C02_effects_converge_full_false : ¬ C02_effects_converge_full := by
+  intro h
+  have w := C02_self_feedback_witness
+  have := h c02SelfProg c02SelfOps w.1 w.2.1 w.2.2.2.1
+  rw [this] at w
+  exact absurd w.2.2.2.2.2.2 (by decide)
+
+/-- the own body of effect `i` contains no write -/
+def effReadOnly (p : Prog) (i : Nat) : Bool := (bodyOf p i).noWrite
+
+theorem progNoUntracked_eq (p : Prog) : progNoUntracked p = bodiesTracked p := rfl
+
+/-- **proved**: same hypotheses as `C02_effects_converge_stmt`; at every idle point every effect whose
+OWN body does not write is current (other effects of the program may write signals).
+Proof: `Proofs/ReactiveConv.lean` (invariant `InvC`: a non-notified effect has all memo sources clean
+and, unless flagged dirty, has seen the cached values; `effLoop_specC`). -/
+theorem C02_effects_converge_readonly :
+    ∀ (p : Prog) (ops : List Op), WF p = true → progNoUntracked p = true → opsNoLifecycle ops = true →
+      ready (run p ops) = [] →
+      ∀ i, isEff p i = true → effReadOnly p i = true → effCurrent p (run p ops) i = true := by
+  intro p ops hwf ht hops hidle i hi hro
+  have hplain : ∀ o ∈ ops, o.plain = true := by
+    intro o ho
+    simp only [opsNoLifecycle, List.all_eq_true] at hops
+    have := hops o ho
+    cases o <;> simp_all [Op.plain]
+  have hq := run_quiet hwf (memoOK_of_wf hwf) (effOK_of_wf hwf ht) ops
+  have hk : ((run p ops).get i).kind = .eff := by
+    simp only [isEff] at hi
+    cases hp : p[i]? with
+    | none => rw [hp] at hi; cases hi
+    | some d =>
+      rw [hq.inv.kind i d hp]
+      cases d <;> simp_all [kindOf]
+  obtain ⟨hruns, hvals⟩ := effects_current hwf ht ops hplain hidle i hk hro
+  simp only [effCurrent, Bool.and_eq_true, bne_iff_ne, ne_eq, List.all_eq_true, beq_iff_eq]
+  exact ⟨hruns, fun z hz => hvals z hz⟩
+
+/-- corollary: if no effect of the program writes, all effects are current at idle -/
+theorem C02_effects_converge_nowrite :
+    ∀ (p : Prog) (ops : List Op), WF p = true → progNoUntracked p = true → opsNoLifecycle ops = true →
+      (∀ i, isEff p i = true → effReadOnly p i = true) →
+      ready (run p ops) = [] → allEffectsCurrent p (run p ops) = true := by
+  intro p ops hwf ht hops hro hidle
+  simp only [allEffectsCurrent, List.all_eq_true, List.mem_range, Bool.or_eq_true, Bool.not_eq_true']
+  intro i _
+  cases hi : isEff p i with
+  | false => exact .inl rfl
+  | true => exact .inr (C02_effects_converge_readonly p ops hwf ht hops hidle i hi (hro i hi))
+
+/-- does body `e` read node `y` (tracked or not)? -/
+def Expr.readsNode (y : Nat) : Expr → Bool
+  | .lit _ => false
+  | .rd _ id => id == y
+  | .add a b => a.readsNode y || b.readsNode y
+  | .mulc _ a => a.readsNode y
+  | .ite c t e => c.readsNode y || t.readsNode y || e.readsNode y
+  | .seq a b => a.readsNode y || b.readsNode y
+  | .wr _ a => a.readsNode y
+
+/-- does body `e` write signal `sg`? -/
+def Expr.writesSig (sg : Nat) : Expr → Bool
+  | .lit _ => false
+  | .rd _ _ => false
+  | .add a b => a.writesSig sg || b.writesSig sg
+  | .mulc _ a => a.writesSig sg
+  | .ite c t e => c.writesSig sg || t.writesSig sg || e.writesSig sg
+  | .seq a b => a.writesSig sg || b.writesSig sg
+  | .wr id a => id == sg || a.writesSig sg
+
+/-- node `x` depends (transitively, through memo bodies) on node `sg`; fuel = number of nodes -/
+def dependsOn (p : Prog) : Nat → Nat → Nat → Bool
+  | 0, _, _ => false
+  | f + 1, x, sg =>
+    x == sg ||
+    (match p[x]? with
+     | some (.memo b) => (List.range x).any fun y => b.readsNode y && dependsOn p f y sg
+     | _ => false)
+
+/-- no effect writes a signal on which one of the nodes it reads depends -/
+def noSelfFeedback (p : Prog) : Bool :=
+  (List.range p.length).all fun e =>
+    match p[e]? with
+    | some (.eff b) =>
+      (List.range e).all fun sg => !(b.writesSig sg) ||
+        (List.range e).all fun y => !(b.readsNode y) || !(dependsOn p p.length y sg)
+    | _ => true
+
+/-- OPEN (stronger than `C02_effects_converge_readonly`, not attempted): effects may write, provided no
+effect writes a signal on which one of the nodes it reads depends (no self-feedback, which excludes
+F-C02-2); then ALL effects are current at idle. -/
+def C02_effects_converge_nofeedback_stmt : Prop :=
+  ∀ (p : Prog) (ops : List Op), WF p = true → progNoUntracked p = true → opsNoLifecycle ops = true →
+    noSelfFeedback p = true → ready (run p ops) = [] → allEffectsCurrent p (run p ops) = true
+
+example : noSelfFeedback c02SelfProg = false ∧ noSelfFeedback c02Prog = true := by decide +kernel
+
+/-- non-vacuity of `C02_effects_converge_readonly`: the repaired F-C02-1 program (a read-only effect) -/
+example :
+    WF c02Prog = true ∧ progNoUntracked c02Prog = true ∧ effReadOnly c02Prog 3 = true ∧
+    opsNoLifecycle [.idle, .set 0 2, .idle, .set 0 5, .idle] = true ∧
+    ready (run c02Prog [.idle, .set 0 2, .idle, .set 0 5, .idle]) = [] ∧
+    ((run c02Prog [.idle, .set 0 2, .idle, .set 0 5, .idle]).get 3).runs = 3 ∧
+    effCurrent c02Prog (run c02Prog [.idle, .set 0 2, .idle, .set 0 5, .idle]) 3 = true := by
+  decide +kernel
 
 end Leptos.Reactive
